@@ -25,6 +25,11 @@ def generate(rng, tier):
              ("", ".", "nb"), ("é", "", "~"), ("1a", "1.0.97", "1_50"), ("1.0PRE1", "1.0rc1", "1.0"),
              ("12345678901234567890123", "12345678901234567890124", "1"), ("1nb99999999999999999999", "1nb0", "1")]
     trips = list(fixed)
+    # versions whose only significant component lies beyond 255 / 1023 / 4095 characters
+    for L in (255, 256, 1023, 1024, 1025, 4096):
+        k = (L - 3) // 2
+        trips.append(("1" + ".0" * k + ".5", "1", "1" + ".0" * k))
+        trips.append(("1" + ".0" * k + ".5", "1" + ".0" * (k + 3) + ".4", "2"))
     for _ in range(ntrip):
         a = clean(vgen.version(rng, long_ok=True))
         if rng.random() < 0.7:
